@@ -22,6 +22,7 @@ EXPLANATION = (
     "project.modules are exported and external_url short-circuits URL computation. R5: the remote "
     "base URL is slash-terminated before every urljoin. Existence of the target pages in the other "
     "project's output is not decided."
+    ' R6: dict2obj builds one fresh object per exported entity and registers it; graph nodes take external URLs as recorded. R7: every value passed as the URL of an external entity is a str, and the base handed to modules_from_local is a Path on every path. R1 also covers shape errors of a description that is valid JSON (KeyError/TypeError/AttributeError from the conversion).'
 )
 ASSUMPTIONS = ["raise sets of the stdlib calls are the table RAISES below", "exception hierarchy table HIER"]
 
